@@ -585,7 +585,7 @@ func (ex *Exec) call(fn *ssa.Function, args []Value, fv []Value) Value {
 		// package initialisers are run on demand, not from one another
 		return nil
 	}
-	if ex.threads != nil && ex.threads.running && ex.threads.cur != nil && ex.ld.isVisible(fn) {
+	if ex.threads != nil && ex.threads.running && ex.threads.cur != nil && ex.ld.isVisible(fn, ex.h.groups) {
 		ex.threads.yieldPoint(ex, fn.Name(), false)
 	}
 	if ex.initMode && ex.frame != nil && !ex.inInitGuard && ex.frame.fn.Name() == "init" && ex.frame.fn.Pkg != nil && ex.frame.fn == ex.frame.fn.Pkg.Func("init") {
